@@ -39,6 +39,9 @@ func (m *monC13) PreCall(s *Sim, c *Call) {
 	letter := letterOfTpl(&req.Spec.Template)
 	s.Stats.NonVacuous["C13.create"]++
 	for _, r := range s.Store.ERSs() {
+		if t.Zombie {
+			break // an instance that lost its lease: what it created since cannot be known to it
+		}
 		if r.Namespace == v.EDS.Namespace && ownerUID(&r.ObjectMeta, "ExtendedDaemonSet") == string(v.EDS.UID) && letterOfTpl(&r.Spec.Template) == letter {
 			s.Violate("C13", "one-per-template", "", "%s creates a second replica set for template %s while %s exists", t.Label(), letter, r.Name)
 		}
@@ -109,7 +112,15 @@ func (m *monC13) TaskEnd(s *Sim, t *Task) {
 			if t.Clean() && r.Name == st.ActiveReplicaSet {
 				s.Violate("C13", "gc-active", "", "%s deleted the active replica set %s", t.Label(), r.Name)
 			}
-			if letterOfTpl(&r.Spec.Template) == specLetter {
+			twins := 0
+			for _, o := range own {
+				if letterOfTpl(&o.Spec.Template) == specLetter {
+					twins++
+				}
+			}
+			// (two replica sets of the live template can only stem from two overlapping controller
+			// instances; removing the surplus one is the repair)
+			if letterOfTpl(&r.Spec.Template) == specLetter && twins < 2 {
 				s.Violate("C13", "gc-uptodate", "", "%s deleted replica set %s which matches spec.template", t.Label(), r.Name)
 			}
 			rs := r.Status
